@@ -28,8 +28,10 @@ import (
 	"os"
 	"path/filepath"
 	"regexp/syntax"
+	"runtime"
 	"sort"
 	"strings"
+	"sync"
 	"testing"
 
 	"github.com/RoaringBitmap/roaring/v2"
@@ -491,10 +493,33 @@ func c05Report(rec *kit.Rec, where string, q query.Q, class, detail string, refa
 // ---------------------------------------------------------------------------
 // (A) pure
 
+// c05Parallel runs f(0..n-1) on a few goroutines. Every world has its own PRNG stream,
+// so what is generated and judged does not depend on the schedule (only which witness
+// of a signature is written first does).
+func c05Parallel(n int, f func(i int)) {
+	workers := max(2, min(12, runtime.GOMAXPROCS(0)-2))
+	var wg sync.WaitGroup
+	next := make(chan int)
+	for w := 0; w < workers; w++ {
+		wg.Add(1)
+		go func() {
+			defer wg.Done()
+			for i := range next {
+				f(i)
+			}
+		}()
+	}
+	for i := 0; i < n; i++ {
+		next <- i
+	}
+	close(next)
+	wg.Wait()
+}
+
 func c05Pure(rec *kit.Rec) {
 	nWorlds := rec.N(100, 2500)
 	nTrees := rec.N(200, 400)
-	for wi := 0; wi < nWorlds; wi++ {
+	c05Parallel(nWorlds, func(wi int) {
 		gr := rec.Rand(uint64(1000 + wi))
 		var corpora []*kit.Corpus
 		kg := kit.NewGen(gr)
@@ -518,7 +543,7 @@ func c05Pure(rec *kit.Rec) {
 			q := g.tree(1 + gr.IntN(6))
 			c05PureOne(rec, ev, q, docs, corpora)
 		}
-	}
+	})
 }
 
 func c05PureOne(rec *kit.Rec, ev *kit.Evaluator, q query.Q, docs []c05Doc, corpora []*kit.Corpus) {
@@ -748,7 +773,7 @@ type c05Shard struct {
 func c05Shards(rec *kit.Rec) {
 	nWorlds := rec.N(60, 1500)
 	nTrees := rec.N(120, 160)
-	for wi := 0; wi < nWorlds; wi++ {
+	c05Parallel(nWorlds, func(wi int) {
 		gr := rec.Rand(uint64(500000 + wi))
 		kg := kit.NewGen(gr)
 		kg.Tombstones = true
@@ -780,7 +805,7 @@ func c05Shards(rec *kit.Rec) {
 		if err != nil {
 			rec.Violation("harness/build", err.Error(), map[string]any{"corpus": c05Dump(c)})
 			os.RemoveAll(dir)
-			continue
+			return
 		}
 		ev := kit.NewEvaluator(c)
 		for _, sh := range shards {
@@ -806,7 +831,7 @@ func c05Shards(rec *kit.Rec) {
 			sh.d.Close()
 		}
 		os.RemoveAll(dir)
-	}
+	})
 }
 
 func c05BuildWorld(gr *rand.Rand, dir string, c *kit.Corpus) ([]*c05Shard, error) {
